@@ -69,6 +69,9 @@ def modifier_cases(rng, n):
                     out.append(dict(kind="vslice", xs=xs, cons=[c, dive, dict(k=k, n=(m + 1) % 4)]))     # before dive: the length; after: the elements
                     out.append(dict(kind="vslice", xs=xs, cons=[dive, om, c]))
         out.append(dict(kind="vslice", xs=xs, cons=[dict(k="min", n=len(xs))]))          # no dive: the list itself
+    for ptr in (False, True):          # `required` on a nested struct member of a validated struct
+        for nx in ("absent", "0", "5"):
+            out.append(dict(kind="vnest", ptr=ptr, nx=nx))
     for _ in range(n):
         xs = [rng.randint(0, 6) for _ in range(rng.randint(1, 4))]
         cs = [dict(k=k, n=rng.randint(0, 4)) for k in rng.sample(kinds, rng.randint(0, 2))]
